@@ -51,7 +51,9 @@ Qed.
 
 Lemma Jx_query s X h m cz s' ev ok : Jx s X -> query s h m cz = (s', ev, ok) -> Jx s' X /\ covered s' h.
 Proof.
-  rewrite query_eq. intros J H. destruct (reason (pool_of s h)); inversion H; subst.
+  rewrite query_eq. intros J H.
+  assert (J' : Jx (touch s (pool_of s h)) X) by (eapply Jx_same; [|exact J]; repeat split).
+  destruct (reason (pool_of s h)); inversion H; subst.
   - apply Jx_set_err; assumption.
   - apply Jx_add_attempt; assumption.
 Qed.
@@ -73,6 +75,9 @@ Proof.
     assert (J1' : Jx s1 X).
     { split; [|exact K2]. intros x Hx. destruct (K1 x Hx) as [[<-|G]|G]; auto. }
     destruct ok; [inversion H; subst; exact J1'|].
+    destruct (elapsed s1).
+    { inversion H; subst. eapply Jx_same; [|exact J1'].
+      destruct (on_timeout_same s1) as [[_ F]|[_ E]]; [apply same_cover_sbo; exact F|rewrite E; repeat split]. }
     destruct (walk s1 rest b) as [s2 ev2] eqn:W. inversion H; subst. eapply IH; eauto.
 Qed.
 
@@ -82,8 +87,10 @@ Proof.
   - left. eapply walk_errors_mono; eauto.
   - right. pose proof (walk_frame_ok _ _ _ _ _ W) as F. apply walk_walked in W. unfold open_hosts in *.
     rewrite (wf_queue _ _ F). apply in_app_iff in C. apply in_app_iff. destruct C as [C|C]; auto. left.
-    destruct W as [sk h0 rest Hp Hsk Hh Hplan Hcons Hev Hatt Hexc Harm | Hsk Hplan Hcons Hev Hatt Hexc Harm]; rewrite Hatt.
+    destruct W as [sk h0 rest Hp Hsk Hh Hplan Hcons Hev Hatt Hexc Harm | Hsk Hplan Hcons Hev Hatt Hexc Harm
+                  | sk rest Hp Hne Hsk Hplan Hcons Hev Hatt Hel Hexc Harm]; rewrite Hatt.
     + rewrite filter_app, map_app. apply in_app_iff. auto.
+    + exact C.
     + exact C.
 Qed.
 
@@ -189,8 +196,10 @@ Lemma send_request_pframe s b s' ev : send_request s b = (s', ev) -> pframe s s'
 Proof.
   intros W. pose proof (walk_frame_ok _ _ _ _ _ W) as F. apply walk_walked in W.
   split; [apply F|].
-  destruct W as [sk h rest Hp Hsk Hh Hplan Hcons Hev Hatt Hexc Harm | Hsk Hplan Hcons Hev Hatt Hexc Harm]; unfold pages; rewrite Hatt.
+  destruct W as [sk h rest Hp Hsk Hh Hplan Hcons Hev Hatt Hexc Harm | Hsk Hplan Hcons Hev Hatt Hexc Harm
+                | sk rest Hp Hne Hsk Hplan Hcons Hev Hatt Hel Hexc Harm]; unfold pages; rewrite Hatt.
   - exists 1%nat. rewrite map_app. reflexivity.
+  - exists 0%nat. rewrite app_nil_r. reflexivity.
   - exists 0%nat. rewrite app_nil_r. reflexivity.
 Qed.
 
@@ -253,6 +262,12 @@ Proof.
     apply send_request_pframe in W. exact W.
 Qed.
 
+Lemma retry_task_pframe c s reuse h s' ev : fin_exc s = None -> run_task c s (TRetry reuse h) = (s', ev) -> pframe s s'.
+Proof.
+  intros E H. cbn [run_task] in H. rewrite E in H. cbn [is_some] in H.
+  destruct reuse; [eapply qon_pframe; eauto|eapply send_request_pframe; eauto].
+Qed.
+
 Lemma step_pframe c s o s' ev : is_next_page o = false -> step c s o = (s', ev) -> pframe s s'.
 Proof.
   intros NP H. destruct o as [|i r|k| |h0 p|k|pp]; cbn [step] in H; [| | | | | |discriminate].
@@ -263,7 +278,11 @@ Proof.
     { split; [reflexivity|]. exists 0%nat. unfold pages. cbn [attempts set_attempts]. rewrite pages_mark_done, app_nil_r. reflexivity. }
     destruct (a_prep a); [inversion H; subst; eapply pframe_trans; [exact P0|apply submit_pframe]|].
     destruct (Nat.eqb (a_page a) (page_no s)); [|inversion H; subst; exact P0].
-    eapply pframe_trans; [exact P0|eapply set_result_pframe; eauto].
+    destruct (resp_current_cases _ _ _ _ _ _ H) as [H'|(k & tag & dcl & reuse & s2 & ev2 & -> & I & Pl & F & Sh & R & -> & ->)].
+    { eapply pframe_trans; [exact P0|eapply set_result_pframe; eauto]. }
+    apply (pframe_trans s (bump_counters (tick_consult (set_attempts s (mark_done i (attempts s)))) dcl)).
+    { eapply pframe_trans; [exact P0|apply pframe_same; reflexivity]. }
+    apply (pframe_trans _ s2); [eapply retry_task_pframe; [|exact R]; exact F|apply pframe_same; reflexivity].
   - destruct (nth_error (queue s) k) as [t|]; [|inversion H; subst; apply pframe_same; reflexivity].
     apply (pframe_trans s (set_queue s (remove_nth k (queue s)))); [apply pframe_same; reflexivity|].
     destruct t as [reuse h|h qs ks0|h r]; cbn [run_task] in H.
@@ -275,6 +294,9 @@ Proof.
     destruct (negb (spec_armed s)); [inversion H; subst; apply pframe_same; reflexivity|].
     destruct (completed (set_spec s false (spec_left s))); [inversion H; subst; apply pframe_same; reflexivity|].
     destruct (attempts (set_spec s false (spec_left s))) eqn:A; [inversion H; subst; apply pframe_same; reflexivity|].
+    destruct (elapsed (set_spec s false (spec_left s))).
+    { inversion H; subst. apply (pframe_trans s (set_spec s false (spec_left s))); [apply pframe_same; reflexivity|].
+      destruct (on_timeout_same (set_spec s false (spec_left s))) as [[_ F]|[_ E]]; [apply sbo_pframe; exact F|rewrite E; apply pframe_same; reflexivity]. }
     destruct (send_request (set_spec s false (spec_left s)) false) as [s1 ev1] eqn:W. inversion H; subst.
     apply send_request_pframe in W.
     apply (pframe_trans s (set_spec s false (spec_left s))); [apply pframe_same; reflexivity|].
@@ -286,16 +308,16 @@ Qed.
 
 (* what a step may do to the coverage invariant *)
 Definition finishes_otherwise (s s' : state) : Prop :=
-  (fin_res s' <> fin_res s /\ fin_exc s' = fin_exc s) \/ (exists x, fin_exc s' = Some x /\ forall e, x <> XNoHost e).
+  (fin_res s' <> fin_res s /\ fin_exc s' = fin_exc s) \/ (exists x, fin_exc s' = Some x /\ x <> XNoHost).
 
-Ltac fin_other := right; right; eexists; split; [reflexivity|intros e0; discriminate].
+Ltac fin_other := right; right; eexists; split; [reflexivity|discriminate].
 Ltac fin_res_changed Hres := right; left; split; [cbn; rewrite Hres; discriminate|reflexivity].
 
 Lemma submit_J s0 h t : task_host t = h -> (forall reuse x, t <> TRetry reuse x) -> Jx s0 [h] -> completed s0 = false ->
   Jx (submit s0 t) [] \/ finishes_otherwise s0 (submit s0 t).
 Proof.
   intros T NR J NC. unfold submit. destruct (session_shut s0).
-  - right; right. unfold fail_with. rewrite NC. eexists; split; [reflexivity|intros e0; discriminate].
+  - right; right. unfold fail_with. rewrite NC. eexists; split; [reflexivity|discriminate].
   - left. destruct (Jx_push s0 [h] t) as [Ja Jb]; auto.
     + intros reuse x E. exfalso. eapply NR; eauto.
     + rewrite T in Jb. eapply Jx_resolve; eauto.
@@ -309,7 +331,7 @@ Proof.
   change (session_shut (bump_counters (tick_consult s0) dcl)) with (session_shut s0).
   destruct (session_shut s0).
   - right; right. unfold fail_with, completed. cbn [fin_res fin_exc bump_counters tick_consult]. rewrite Hres, Hexc. cbn.
-    eexists; split; [reflexivity|intros e0; discriminate].
+    eexists; split; [reflexivity|discriminate].
   - left. set (s1 := push_task (bump_counters (tick_consult s0) dcl) (TRetry reuse h)).
     assert (J1 : Jx (set_err s1 h (EResp k tag)) [h] /\ covered (set_err s1 h (EResp k tag)) h).
     { destruct J as [J1 J2]. split; [split|].
@@ -381,7 +403,15 @@ Proof.
     + inversion H; subst.
       destruct (submit_J (set_attempts s (mark_done i (attempts s))) (a_host a) (TAfterPrepare (a_host a) r) eq_refl
                   (fun _ _ E => ltac:(discriminate)) J0 (not_completed s Hres Hexc)) as [G|[G|G]]; [left; exact G|right; left; exact G|right; right; exact G].
-    + destruct (Nat.eqb (a_page a) (page_no s)) eqn:Pg; [eapply set_result_J in H; eauto|].
+    + destruct (Nat.eqb (a_page a) (page_no s)) eqn:Pg.
+      { destruct (resp_current_cases _ _ _ _ _ _ H) as [H'|(k & tag & dcl & reuse & s2 & ev2 & -> & I & Pl & F & Sh & R & -> & ->)].
+        - eapply set_result_J in H'; eauto.
+        - left. set (S0 := bump_counters (tick_consult (set_attempts s (mark_done i (attempts s)))) dcl) in *.
+          assert (JS : Jx S0 [a_host a]) by (eapply Jx_same; [|exact J0]; repeat split).
+          assert (J2 : Jx s2 [a_host a]).
+          { cbn [run_task] in R. change (fin_exc S0) with (fin_exc s) in R. rewrite Hexc in R. cbn [is_some] in R.
+            destruct reuse; [exact (proj1 (Jx_qon _ _ _ _ _ _ _ JS R))|unfold send_request in R; eapply Jx_walk; eauto]. }
+          destruct (Jx_set_err s2 [a_host a] (a_host a) (EResp k tag) J2) as [Ja Jb]. eapply Jx_resolve; eauto. }
       exfalso. apply Nat.eqb_neq in Pg. apply Pg. symmetry.
       unfold all_cur, pages in AC. rewrite Forall_forall in AC. apply AC. apply in_map. eapply nth_error_In; eauto.
   - destruct (nth_error (queue s) k) as [t|] eqn:N; [|inversion H; subst; left; exact J].
@@ -403,7 +433,10 @@ Proof.
     destruct (completed (set_spec s false (spec_left s))); [inversion H; subst; exact J0|].
     destruct (attempts (set_spec s false (spec_left s))) eqn:Att.
     + inversion H; subst. eapply Jx_same; [|exact J]. repeat split.
-    + destruct (send_request (set_spec s false (spec_left s)) false) as [s1 ev1] eqn:W. inversion H; subst.
+    + destruct (elapsed (set_spec s false (spec_left s))).
+      { inversion H; subst. eapply Jx_same; [|exact J0].
+        destruct (on_timeout_same (set_spec s false (spec_left s))) as [[_ F]|[_ E]]; [apply same_cover_sbo; exact F|rewrite E; repeat split]. }
+      destruct (send_request (set_spec s false (spec_left s)) false) as [s1 ev1] eqn:W. inversion H; subst.
       unfold send_request in W. pose proof (Jx_walk _ _ _ _ _ _ J0 W) as J1.
       unfold start_timer. destruct (spec_armed s1); [exact J1|]. destruct (0 <? spec_left s1); [|exact J1].
       eapply Jx_same; [|exact J1]. repeat split.
@@ -447,6 +480,12 @@ Proof.
     destruct (a_done a); [inversion H; subst; left; reflexivity|].
     destruct (a_prep a); [inversion H; subst; left; exact (submit_res (set_attempts s (mark_done i (attempts s))) _)|].
     destruct (Nat.eqb (a_page a) (page_no s)); [|inversion H; subst; left; reflexivity].
+    destruct (resp_current_cases _ _ _ _ _ _ H) as [H'|(k1 & tag1 & dcl1 & reuse & s2 & ev2 & -> & I & Pl & F & Sh & R & -> & ->)].
+    2:{ left. cbn [fin_res set_err]. cbn [run_task] in R.
+        change (fin_exc (bump_counters (tick_consult (set_attempts s (mark_done i (attempts s)))) dcl1)) with (fin_exc s) in R.
+        change (fin_exc (set_attempts s (mark_done i (attempts s)))) with (fin_exc s) in F. rewrite F in R. cbn [is_some] in R.
+        destruct reuse; [apply qon_res in R; exact R|apply walk_frame_ok in R; apply R]. }
+    clear H. rename H' into H.
     set (s0 := set_attempts s (mark_done i (attempts s))) in *.
     change (res_keep s0 s').
     destruct r; cbn [set_result] in H;
@@ -484,6 +523,7 @@ Proof.
     destruct (negb (spec_armed s)); [inversion H; subst; reflexivity|].
     destruct (completed (set_spec s false (spec_left s))); [inversion H; subst; reflexivity|].
     destruct (attempts (set_spec s false (spec_left s))); [inversion H; subst; reflexivity|].
+    destruct (elapsed (set_spec s false (spec_left s))); [inversion H; subst; exact (proj1 (proj2 (on_timeout_exc _)))|].
     destruct (send_request (set_spec s false (spec_left s)) false) as [s1 ev1] eqn:W. inversion H; subst.
     apply walk_frame_ok in W. unfold start_timer.
     destruct (spec_armed s1); [|destruct (0 <? spec_left s1)]; cbn; apply W.
@@ -520,15 +560,15 @@ Qed.
 
 (* the step that raises NoHostAvailable out of a request without outcome: every host of the plan is listed in the error
    or still has an unanswered attempt / queued task *)
-Lemma exhaustion_covers c lb target pl cl idem hasp maxa ks ops s evs o s' ev errs :
+Lemma exhaustion_covers c lb target pl cl idem hasp maxa ks ops s evs o s' ev :
   no_page ops = true -> is_next_page o = false ->
   exec c (init lb target pl cl idem hasp maxa ks) ops = (s, evs) -> fin_res s = None -> fin_exc s = None ->
-  step c s o = (s', ev) -> fin_exc s' = Some (XNoHost errs) ->
-  forall h, In h (make_plan lb target) -> In h (keys errs) \/ In h (open_hosts s').
+  step c s o = (s', ev) -> fin_exc s' = Some XNoHost ->
+  forall h, In h (make_plan lb target) -> In h (keys (errors s')) \/ In h (open_hosts s').
 Proof.
   intros Np NP X R E S N h Hh.
   pose proof (good_exec c ops _ _ _ Np (good_init lb target pl cl idem hasp maxa ks) X) as [AC G].
-  destruct (nohost_only_when_exhausted _ _ _ _ _ _ S N) as [K|[-> P]]; [congruence|].
+  destruct (nohost_only_when_exhausted _ _ _ _ _ S N) as [K|P]; [congruence|].
   pose proof (history_inv_first_page c lb target pl cl idem hasp maxa ks ops s evs Np X) as HI.
   pose proof (step_hinv c _ _ _ _ _ _ HI S) as (I1 & _ & _).
   assert (Ep : plan_after c o s (make_plan lb target) = make_plan lb target) by (destruct o; try reflexivity; discriminate).
@@ -536,5 +576,5 @@ Proof.
   destruct (step_J _ _ _ _ _ NP AC (G R E) R E S) as [[J1 _]|[[_ K]|(x & K & Nx)]].
   - rewrite <- I1 in Hh. destruct (J1 h Hh) as [[]|C]. exact C.
   - congruence.
-  - exfalso. rewrite K in N. inversion N; subst. eapply Nx; reflexivity.
+  - exfalso. rewrite K in N. inversion N; subst. apply Nx; reflexivity.
 Qed.
